@@ -18,7 +18,8 @@ import drive_sched as ds
 
 THEOREMS_RUN = ['RB.Term.c04_records_consecutive', 'RB.Term.c04_never_past_N', 'RB.Term.c04_retry_spec',
                 'RB.Term.c04_failed_records_nothing', 'RB.Term.c04_starts_bounded', 'RB.Term.c04_abandon_127']
-THEOREMS_SHARED = ['RB.Sched.c04_abandon_127_shared_partial', 'RB.Sched.c04_removed_never_picked']
+THEOREMS_SHARED = ['RB.Sched.c04_abandon_127_shared', 'RB.Sched.c04_abandon_127_shared_step',
+                   'RB.Sched.c04_removed_never_picked']
 
 KINDS = {
     'ok': {'rc': 0, 'dps': 1},
